@@ -31,7 +31,8 @@ struct Codes { int peerClosed, cancelled, timeout, overflow, shuttingDown; };
 
 struct Chunk { uint32_t pos = 0, len = 0; bool attempted = false, delivered = false; uint64_t s0 = 0, s1 = 0; int cand = 0; };
 struct Recv { uint64_t s0 = 0, s1 = 0, t0 = 0, t1 = 0; uint32_t bufLen = 0; int timeoutMs = 0; int code = RES_OK;
-              std::vector<uint8_t> data; bool canaryBroken = false, lenMismatch = false; int thread = 0; };
+              std::vector<uint8_t> data; bool canaryBroken = false, lenMismatch = false; int thread = 0;
+              bool errorWroteBuffer = false; bool cancellable = false; /* receiveSyncCancellable */ uint64_t cancelSeq = 0; /* seq just before token.cancel() was called, 0 = never */ };
 struct ModeCall { uint64_t s0 = 0, s1 = 0; int target = 0; bool ret = false; int before = M_ASYNC; };
 struct Cb { uint64_t s0 = 0, s1 = 0; bool onIo = false; int encl = -1; /* chunk idx if onIo else ModeCall idx */ bool foreignSid = false;
             std::vector<uint8_t> data; };
@@ -202,6 +203,9 @@ inline void check(History &h, Result &R)
     auto &r = h.recvs[i];
     if (r.code == RES_OK && r.data.size() > r.bufLen) R.v("C03:recv:returned-more-than-buffer", "receiveSync reported more bytes than the caller's buffer holds");
     if (r.canaryBroken) R.v("C03:recv:wrote-past-returned-length", "receiveSync modified caller buffer bytes beyond the returned length");
+    if (r.errorWroteBuffer)
+      R.v("C03:recv:error-result-consumed-bytes", "a receive that returned an error had written stream bytes into the caller's buffer: bytes were taken out of the sync buffer and then discarded",
+          "{\"result\":\"" + codeName(r.code) + "\",\"cancellable\":" + (r.cancellable ? "true" : "false") + "}");
     if (r.lenMismatch) R.v("C03:recv:len-out-param-mismatch", "receiveSync ok(n) but the len out-parameter differs from n");
     if (r.code == RES_OK && r.data.empty()) R.v("C03:recv:empty-ok", "receiveSync returned ok(0) for a non-empty buffer");
     if (r.code != RES_OK && r.code != C.peerClosed && r.code != C.cancelled && r.code != C.timeout && r.code != C.overflow)
@@ -441,9 +445,16 @@ inline void check(History &h, Result &R)
       bool overlapsFlush = false;
       for (auto &m : h.modes) if (m.target == M_ASYNC && !(m.s1 < r.s0 || m.s0 > r.s1)) overlapsFlush = true;
       bool afterClose = h.close.happened && r.s1 > h.close.s0;
-      if (r.code == C.cancelled)
+      bool byToken = r.cancellable && r.cancelSeq && r.cancelSeq < r.s1;
+      if (r.cancellable)
       {
-        if (!overlapsFlush) R.v("C03:recv:spurious-cancelled", "receiveSync returned Cancelled although no flush and no second reader overlapped the call");
+        R.obs["recv_cancellable_calls"]++;
+        if (r.cancelSeq > r.s0 && r.cancelSeq < r.s1) R.obs[r.code == RES_OK ? "cancel_during_call_data_still_returned" : "cancel_during_call_" + codeName(r.code)]++;
+      }
+      if (r.code == C.cancelled && byToken && !overlapsFlush) R.obs["recv_cancelled_by_token"]++;
+      else if (r.code == C.cancelled)
+      {
+        if (!overlapsFlush) R.v("C03:recv:spurious-cancelled", "receive returned Cancelled although no flush overlapped the call and its token (if any) had not been cancelled");
         else R.obs["recv_rejected_during_flush"]++;
       }
       else if (r.code == C.overflow)
